@@ -123,3 +123,26 @@ pub fn decimal_mul(a: Decimal, b: Decimal) -> Decimal {
 pub fn decimal_behind_barrier(a: Decimal, b: Decimal) -> Option<Decimal> {
     std::panic::catch_unwind(|| decimal_mul(a, b)).ok()
 }
+
+// ---------------------------------------------------------------- C20 controls
+pub struct StatefulServer {
+    pub hits: std::sync::Mutex<u32>,
+    pub name: String,
+}
+
+pub struct StatelessOk {
+    pub names: Vec<String>,
+    pub table: HashMap<String, Decimal>,
+}
+
+pub fn effect_in_handler(path: &str) -> usize {
+    std::fs::read_to_string(path).map(|s| s.len()).unwrap_or(0)
+}
+
+pub async fn awaiting_handler(x: u32) -> u32 {
+    helper_async(x).await + 1
+}
+
+async fn helper_async(x: u32) -> u32 {
+    x
+}
